@@ -8,7 +8,7 @@ Require Import Zrs.model.Matcher Zrs.proofs.C06_Drain Zrs.proofs.C17_Matcher Zrs
 Require Import Zrs.model.HufDec Zrs.model.LitEnc Zrs.proofs.C02_Concrete.
 Require Import Zrs.model.SeqNorm Zrs.proofs.C02_O1.
 Require Import Zrs.proofs.C02_HufSide Zrs.proofs.C02_O2Table.
-Require Import Zrs.model.HufEnc Zrs.proofs.C02_O2Huffman.
+Require Import Zrs.model.HufEnc Zrs.proofs.C13_Agree Zrs.proofs.C02_O2Huffman Zrs.proofs.C02_O2Complete.
 Open Scope Z_scope.
 
 (** level Uncompressed: every input, every fragmentation of the source reads, every block size up to 128 KiB, every
@@ -240,7 +240,7 @@ Proof. exact model_section_meets_O2. Qed.
 Theorem C02_huffman_literals_meet_O2_for_any_weights : forall ws dec M bits ranks idxs,
   Forall (fun w => 0 <= w) ws -> (length ws <= 255)%nat ->
   build_table_from_weights ws = ROk (dec, M, bits, ranks, idxs) ->
-  exists lw codes, 1 <= lw <= M /\ enc_build_from_weights (ws ++ [lw]) = ROk codes /\
+  exists lw codes, 1 <= lw <= M /\ enc_build_from_weights (ws ++ [lw]) = ROk codes /\ bits = map (bits_of M) (ws ++ [lw]) /\
     forall h desc lits ft,
       Forall (fun s => 0 <= s <= Z.of_nat (length ws) /\ 0 < nth (Z.to_nat s) (ws ++ [lw]) 0) lits ->
       16 <= Z.of_nat (length lits) <= 131072 ->
@@ -249,6 +249,22 @@ Theorem C02_huffman_literals_meet_O2_for_any_weights : forall ws dec M bits rank
       exists t, lit_ok h lits (huf_lit_header 2 (zlen lits) (zlen payload)) payload t.
 Proof. exact huffman_section_meets_O2. Qed.
 
+(** ... and in terms of the compressor's own data: EVERY complete weight list (Kraft sum 2^M, M <= 11, at most 256
+    symbols).  The decoder accepts the list without the last weight and infers it; the section -- a description read back
+    as the weights, four streams in the compressor's canonical code for the full list -- is read back as the literals *)
+Theorem C02_huffman_literals_meet_O2_for_every_complete_code : forall ws lw M,
+  Forall (fun w => 0 <= w <= MAX_MAX_NUM_BITS) ws -> (length ws <= 255)%nat -> 1 <= lw <= M -> M <= MAX_MAX_NUM_BITS ->
+  0 < kraft ws -> kraft (ws ++ [lw]) = 2 ^ M ->
+  exists codes, enc_build_from_weights (ws ++ [lw]) = ROk codes /\
+    forall h desc lits ft,
+      Forall (fun s => 0 <= s <= Z.of_nat (length ws) /\ 0 < nth (Z.to_nat s) (ws ++ [lw]) 0) lits ->
+      16 <= Z.of_nat (length lits) <= 131072 ->
+      let payload := desc ++ huf4_bytes (code_fn codes) lits in
+      read_weights h payload = ROk (ws, ft, zlen desc) -> zlen payload < zlen lits ->
+      exists t, lit_ok h lits (huf_lit_header 2 (zlen lits) (zlen payload)) payload t.
+Proof. exact huffman_section_for_complete_weights. Qed.
+
+Print Assumptions C02_huffman_literals_meet_O2_for_every_complete_code.
 Print Assumptions C02_huffman_literals_meet_O2_for_any_weights.
 Print Assumptions C02_model_literals_section_meets_O2.
 Print Assumptions C02_huffman_side_conditions_hold_for_every_table.
